@@ -8,14 +8,14 @@ from gen import i2_line, e_scalar, e_single, e_array, e_ainto, e_into
 from vlib import lin_bracket, Result
 
 ID = "C04"
-LEAN_MODULES = ["NdInterp.Props.C04", "NdInterp.Props.RatTie", "NdInterp.Props.FormulaTie.Lin", "NdInterp.Props.FormulaTie.Bil", "NdInterp.Props.FormulaTie.Rng", "NdInterp.Props.FormulaTie.Ctl"]
-THEOREM_FILES = [("NdInterp/Props/C04.lean", "C04_"), ("NdInterp/Props/FormulaTie/Lin.lean", "FT_lin_calc_frac"), ("NdInterp/Props/FormulaTie/Bil.lean", "FT_bil_"), ("NdInterp/Props/FormulaTie/Lin.lean", "FT_idx_"), ("NdInterp/Props/FormulaTie/Rng.lean", "FT_rng_"), ("NdInterp/Props/FormulaTie/Ctl.lean", "FT_ctl_")]
+LEAN_MODULES = ["NdInterp.Props.C04Fl", "NdInterp.Props.C04", "NdInterp.Props.RatTie", "NdInterp.Props.FormulaTie.Lin", "NdInterp.Props.FormulaTie.Bil", "NdInterp.Props.FormulaTie.Rng", "NdInterp.Props.FormulaTie.Ctl"]
+THEOREM_FILES = [("NdInterp/Props/C04Fl.lean", "C04_"), ("NdInterp/Props/C04.lean", "C04_"), ("NdInterp/Props/FormulaTie/Lin.lean", "FT_lin_calc_frac"), ("NdInterp/Props/FormulaTie/Bil.lean", "FT_bil_"), ("NdInterp/Props/FormulaTie/Lin.lean", "FT_idx_"), ("NdInterp/Props/FormulaTie/Rng.lean", "FT_rng_"), ("NdInterp/Props/FormulaTie/Ctl.lean", "FT_ctl_")]
 RULE = ("Bilinear (no extrapolation) at Q, exact: grids 2x2..12x9 incl. non-square, all axis kinds, 0..2 trailing axes "
         "(data rank 2..4, static and dynamic, all layouts), default / explicit axes, every entry point; queries at nodes, on "
         "grid lines, on cell borders, random. f64 runs against the exact blend with 3x the proved calc_frac bound. "
         "extra: transposition metamorphic test at Q (exact equality). non-trivial = a query strictly inside a cell")
-PARTIAL = ["rounding: three nested calc_frac, each within C01_rounding's bound (standard model); the f64 tolerance used is the "
-           "composition 3*(13u+12u^2)*(1+eps)*max|z| of those bounds", "f32 not run"]
+PARTIAL = ["rounding is proved under the standard model of fp arithmetic only (C04_rounding: (2B+B^2)*max|z|, B = 13u+12u^2, three nested "
+           "calc_frac; the tolerance of the float runs, 3B(1+4B)*max|z|, is implied: C04_rounding_check_bound); overflow/underflow excluded"]
 ASSUMPTIONS = ["standard model of floating-point arithmetic for the rounding bound", "axis lengths < 2^64"]
 U = Fr(1, 2 ** 53)
 B1 = 13 * U + 12 * U * U
